@@ -1,12 +1,225 @@
-/- Drv/C18.lean — driver handler for property C18 (line protocol; core-only imports). -/
+/- Drv/C18.lean — driver handler for property C18 (line protocol; core-only imports).
+
+  Wire format
+    expr   (c K) | (v "name") | (u op E) | (b op E E) | (t E…)
+    node   (fn E) | (raw E…)
+    prog   ((K…) ("name"…) ((op|mk I…)…))          constants, inputs, operations (`mk` = make_tuple)
+    value  rational | (t V…) | (s op V…)            `s` = an op the driver leaves uninterpreted
+    kw     (("name" V)…)         consts  (V…)       value of constant K = K-th entry
+-/
 import FunsorVerif.Core.Sexp
 import FunsorVerif.Core.XR
+import FunsorVerif.Model.C18
 namespace FV.Drv.C18
-open FV
+open FV FV.C18
 
-/-- `args` are the top-level S-expressions following the property tag on the request line. -/
+/-- Exact values: rationals, tuples, and free terms for ops without an exact model (`exp`, …), so
+    that `run` and `eval` can be compared symbolically whatever the op. -/
+inductive Val where
+  | num (q : Rat)
+  | tup (vs : List Val)
+  | sym (op : String) (args : List Val)
+  deriving Inhabited
+
+mutual
+partial def Val.toSexp : Val → Sexp
+  | .num q => ratToSexp q
+  | .tup vs => .list (.atom "t" :: vs.map Val.toSexp)
+  | .sym op vs => .list (.atom "s" :: .atom op :: vs.map Val.toSexp)
+end
+
+partial def parseVal : Sexp → Option Val
+  | .list (.atom "t" :: vs) => (vs.mapM parseVal).map .tup
+  | .list (.atom "s" :: .atom op :: vs) => (vs.mapM parseVal).map (.sym op)
+  | .atom a => (XR.parseRat a).map .num
+  | _ => none
+
+def unOp (op : String) (x : Val) : Val :=
+  match op, x with
+  | "neg", .num q => .num (-q)
+  | "abs", .num q => .num (if q < 0 then -q else q)
+  | _, _ => .sym op [x]
+
+def binOp (op : String) (x y : Val) : Val :=
+  match op, x, y with
+  | "add", .num a, .num b => .num (a + b)
+  | "sub", .num a, .num b => .num (a - b)
+  | "mul", .num a, .num b => .num (a * b)
+  | "max", .num a, .num b => .num (if a ≤ b then b else a)
+  | "min", .num a, .num b => .num (if a ≤ b then a else b)
+  | "truediv", .num a, .num b => if b = 0 then .sym op [x, y] else .num (a / b)
+  | _, _, _ => .sym op [x, y]
+
+def interp (consts : List Val) : Interp Val :=
+  { const := fun k => (consts[k]?).getD (.sym "unknown-constant" [.num k]),
+    un := unOp, bin := binOp, tup := .tup }
+
+partial def parseExpr : Sexp → Option Expr
+  | .list [.atom "c", k] => k.asNat?.map .const
+  | .list [.atom "v", n] => n.asStr?.map .var
+  | .list [.atom "u", op, a] => do
+      let o ← op.asStr?; let a ← parseExpr a; pure (.unary o a)
+  | .list [.atom "b", op, a, b] => do
+      let o ← op.asStr?; let a ← parseExpr a; let b ← parseExpr b; pure (.binary o a b)
+  | .list (.atom "t" :: args) => do
+      let es ← args.mapM parseExpr; pure (.tuple (Args.ofList es))
+  | _ => none
+
+def parseNode : Sexp → Option Node
+  | .list [.atom "fn", e] => (parseExpr e).map .fn
+  | .list (.atom "raw" :: es) => (es.mapM parseExpr).map (fun l => .raw (Args.ofList l))
+  | _ => none
+
+mutual
+partial def exprToSexp : Expr → Sexp
+  | .const k => .list [.atom "c", Sexp.ofNat k]
+  | .var n => .list [.atom "v", .str n]
+  | .unary op a => .list [.atom "u", .atom op, exprToSexp a]
+  | .binary op a b => .list [.atom "b", .atom op, exprToSexp a, exprToSexp b]
+  | .tuple as => .list (.atom "t" :: as.toList.map exprToSexp)
+end
+
+def nodeToSexp : Node → Sexp
+  | .fn e => .list [.atom "fn", exprToSexp e]
+  | .raw es => .list (.atom "raw" :: es.toList.map exprToSexp)
+
+def opToSexp : OpTag × List Nat → Sexp
+  | (.op name, ids) => .list (.atom name :: ids.map Sexp.ofNat)
+  | (.mkTuple, ids) => .list (.atom "mk" :: ids.map Sexp.ofNat)
+
+def progToSexp (p : Prog) : Sexp :=
+  .list [Sexp.ofNats p.constants, .list (p.inputs.map .str), .list (p.operations.map opToSexp)]
+
+def parseOp : Sexp → Option (OpTag × List Nat)
+  | .list (.atom name :: ids) => do
+      let is ← ids.mapM Sexp.asNat?
+      pure (if name == "mk" then .mkTuple else .op name, is)
+  | _ => none
+
+def parseProg : Sexp → Option Prog
+  | .list [cs, ins, ops] => do
+      let cs ← cs.asNats?
+      let ins ← ins.asStrs?
+      let ops ← (← ops.asList?).mapM parseOp
+      pure ⟨cs, ins, ops⟩
+  | _ => none
+
+def parseKw (s : Sexp) : Option (Kw Val) := do
+  let xs ← s.asList?
+  xs.mapM fun
+    | .list [n, v] => do let n ← n.asStr?; let v ← parseVal v; pure (n, v)
+    | _ => none
+
+def parseVals (s : Sexp) : Option (List Val) := do (← s.asList?).mapM parseVal
+
+def errToString : Err → String
+  | .missing n => "(error missing \"" ++ n ++ "\")"
+  | .unrecognized ns => "(error unrecognized " ++ toString (Sexp.list (ns.map .str)) ++ ")"
+  | .index i => "(error index " ++ toString i ++ ")"
+  | .arity op n => "(error arity " ++ op ++ " " ++ toString n ++ ")"
+  | .emptyEnv => "(error empty-env)"
+  | .key n => "(error key " ++ toString (nodeToSexp n) ++ ")"
+  | .keyId i => "(error keyid " ++ toString i ++ ")"
+  | .notImplemented n => "(error not-implemented " ++ toString (nodeToSexp n) ++ ")"
+  | .name s => "(error name " ++ s ++ ")"
+  | .fuel => "(error fuel)"
+
+def showProg : Except Err Prog → String
+  | .ok p => toString (progToSexp p)
+  | .error e => errToString e
+
+def showVal : Except Err Val → String
+  | .ok v => toString v.toSexp
+  | .error e => errToString e
+
+def showOrd (ord : List Node) : String := toString (Sexp.list (ord.map nodeToSexp))
+
+def rhsToSexp : Rhs → Sexp
+  | .const k => .list [.atom "c", Sexp.ofNat k]
+  | .name s => .list [.atom "n", .str s]
+  | .call tag args => opToSexp (tag, args)
+
+def codeToSexp (c : Code) : Sexp :=
+  .list [.list (c.params.map .str),
+         .list (c.lets.map fun (i, r) => .list [Sexp.ofNat i, rhsToSexp r]),
+         match c.ret with | some i => Sexp.ofNat i | none => .atom "none"]
+
+def parseTrace (s : Sexp) : Option (List TEntry) := do
+  (← s.asList?).mapM fun
+    | .list [r, op, args] => do
+        let r ← r.asNat?
+        let (tag, _) ← parseOp (.list [op])
+        let args ← args.asNats?
+        pure ⟨r, tag, args⟩
+    | _ => none
+
+def parseKwIds (s : Sexp) : Option (List (String × Nat)) := do
+  (← s.asList?).mapM fun
+    | .list [n, v] => do pure (← n.asStr?, ← v.asNat?)
+    | _ => none
+
+/--
+  C18 anf E                         the model's anf order of the DAG of E
+  C18 compile E                     anf + compile_funsor (model end to end): `ok <ord> <prog> <inputs>`
+  C18 compilewith (N…) ("in"…)      compile_funsor for a GIVEN ordering and input list
+  C18 prefix (N…) ("in"…)           same with the numbering before commit 6850cf7
+  C18 inputs E                      expr.inputs key order
+  C18 eval E (V…) KW                value of the expression (spec)
+  C18 run PROG (V…) KW              OpProgram.__call__
+  C18 exec PROG (V…) KW             python execution of as_code() (one namespace)
+  C18 ascode PROG                   the printed lines
+  C18 trace VARS ALLOW TRACE ROOT KWIDS    trace_function after recording (VARS = ids for which is_variable)
+-/
 def handle (args : List Sexp) : String :=
   match args with
-  | _ => "err unimplemented"
+  | [.atom "anf", e] =>
+    match parseExpr e with
+    | some e => match anf (.fn e) with
+      | some ord => "ok " ++ showOrd ord
+      | none => "ok (error fuel)"
+    | none => "err bad-expr"
+  | [.atom "compile", e] =>
+    match parseExpr e with
+    | some e => match anf (.fn e) with
+      | some ord => "ok " ++ showOrd ord ++ " " ++ showProg (compileWith ord (inputsOf e))
+      | none => "ok (error fuel)"
+    | none => "err bad-expr"
+  | [.atom "compilewith", ord, ins] =>
+    match (ord.asList?).bind (·.mapM parseNode), ins.asStrs? with
+    | some ord, some ins => "ok " ++ showProg (compileWith ord ins)
+    | _, _ => "err bad-args"
+  | [.atom "prefix", ord, ins] =>
+    match (ord.asList?).bind (·.mapM parseNode), ins.asStrs? with
+    | some ord, some ins => "ok " ++ showProg (compileWithPreFix ord ins)
+    | _, _ => "err bad-args"
+  | [.atom "inputs", e] =>
+    match parseExpr e with
+    | some e => "ok " ++ toString (Sexp.list ((inputsOf e).map .str))
+    | none => "err bad-expr"
+  | [.atom "eval", e, cs, kw] =>
+    match parseExpr e, parseVals cs, parseKw kw with
+    | some e, some cs, some kw =>
+      match eval (interp cs) kw e with
+      | some v => "ok " ++ toString v.toSexp
+      | none => "ok (error unbound)"
+    | _, _, _ => "err bad-args"
+  | [.atom "run", p, cs, kw] =>
+    match parseProg p, parseVals cs, parseKw kw with
+    | some p, some cs, some kw => "ok " ++ showVal (run (interp cs) p kw)
+    | _, _, _ => "err bad-args"
+  | [.atom "exec", p, cs, kw] =>
+    match parseProg p, parseVals cs, parseKw kw with
+    | some p, some cs, some kw => "ok " ++ showVal (execCode (interp cs) (asCode p) kw)
+    | _, _, _ => "err bad-args"
+  | [.atom "ascode", p] =>
+    match parseProg p with
+    | some p => "ok " ++ toString (codeToSexp (asCode p))
+    | none => "err bad-prog"
+  | [.atom "trace", vars, allow, tr, root, kwids] =>
+    match vars.asNats?, allow.asBool?, parseTrace tr, root.asNat?, parseKwIds kwids with
+    | some vars, some allow, some tr, some root, some kwids =>
+      "ok " ++ showProg (traceCompile (fun i => vars.contains i) allow tr root kwids)
+    | _, _, _, _, _ => "err bad-args"
+  | _ => "err bad-request"
 
 end FV.Drv.C18
